@@ -1,6 +1,7 @@
 //! vharness — drives the real mls-rs crates for the correspondence checks of /verif.
 //! One sub-command per property; all randomness from one SplitMix64 seeded by --seed.
 mod c05;
+mod c06;
 mod c11;
 mod c13;
 mod c15;
@@ -40,6 +41,7 @@ fn main() {
         "c17" => c17::run(&opts),
         "c11" => c11::run(&opts),
         "c05" => c05::run(&opts),
+        "c06" => c06::run(&opts),
         other => {
             eprintln!("unknown command {other}");
             2
